@@ -47,6 +47,26 @@ CHECKS.update({
         design='DESIGN.md §4 C17', engine='gates'),
 })
 
+CHECKS.update({
+    'C07': dict(
+        technique='exhaustive enumeration of all DAGs<=3(4) x forced sets x flags x store states on the real Chain.force, plus explicit-state BFS over force histories; closure/run/generation oracles',
+        text='Part A enumerates every labelled DAG on <= 3 (quick) / 4 (thorough) tasks x every non-empty set of named tasks x (recompute, delete_data) x every '
+             'present/absent store state x two request orders: fresh chain, Chain.force, then every task requested; is_forced must equal the descendant closure (own Warshall), '
+             'delete_data must remove exactly those results, recompute must run each forced task exactly once, forced tasks rerun once and replace the stored result '
+             '(generation witness carried in the value), unforced tasks are served from storage. Part B explores histories over {new, value, chain force, task force, inspect, '
+             'restart}. Tasks use json/dir/numpy/generator data so directory deletion paths are exercised.',
+        note='Trusts tcv/histories.StoreModel and refmodel closures; run order within recompute compared as multiset (unspecified).',
+        design='DESIGN.md §4 C07', engine='worlds+refmodel+histories'),
+    'C12': dict(
+        technique='exhaustive differential enumeration of every task of a bounded world family against a frozen 1.4.0 reference pinned by golden vectors',
+        text='For every task of every variant of the world families (groups none/single/multi-level/module/double-module, nested namespace mounts, all data classes, '
+             '~1e3 (quick) / ~1.1e4 (thorough) parameter values incl. objects, Path, placeholders, ignored/default/renamed parameters) the real data_path in parameter and '
+             'name mode, and the files on disk after running, are compared with an independent frozen implementation of the release-1.4.0 scheme. The frozen reference is '
+             're-validated on every run against ~480 literal golden vectors produced by running the pinned commit.',
+        note='Golden vectors come from commit 96fd43d (pinned tree, before fix: commits) via tcv.checks.c12.generate_golden; vectors of configurations the pinned tree computes wrongly (defect D1) are not pinned.',
+        design='DESIGN.md §4 C12', engine='worlds+refmodel'),
+})
+
 PENDING_REASON = 'check not built yet in this round (planned per DESIGN.md §4; technique applies)'
 
 
